@@ -55,7 +55,19 @@ namespace sqf::runtime
             void push_back(std::string key, size_t target_id)
             {
                 auto res = m_children.find(key);
-                if (res == m_children.end())
+                if (target_id == invalid_id)
+                { // `delete`: the name stays known (so that it hides an inherited entry) but it is no entry of this class
+                    if (res != m_children.end() && res->second != invalid_id)
+                    {
+                        for (auto it = m_children_vec.begin(); it != m_children_vec.end(); ++it)
+                        {
+                            if (*it == res->second) { m_children_vec.erase(it); break; }
+                        }
+                    }
+                    m_children[key] = invalid_id;
+                    return;
+                }
+                if (res == m_children.end() || res->second == invalid_id)
                 {
                     m_children_vec.push_back(target_id);
                 }
@@ -289,8 +301,8 @@ namespace sqf::runtime
 
                 // Find the targeted config ...
                 auto find_res = container.find(target);
-                if (find_res == container.end())
-                { // ... not found
+                if (find_res == container.end() || find_res->second == config::invalid_id)
+                { // ... not found (or deleted before)
                     // Create new container
                     auto& created = m_confighost.m_containers.emplace_back(m_confighost.m_containers.size(), target); // container might be invalidated here due to m_containers resizing.
 
@@ -323,7 +335,17 @@ namespace sqf::runtime
                     { // it is not
                         // Lookup inherited node and replace it
                         auto nav = lookup_in_logical(inherited);
-                        replaced.id_parent_inherited = nav.m_index;
+                        // ... unless that node (directly or through its own bases) inherits from this very class:
+                        // the inheritance relation has to stay acyclic, or lookups of missing entries never end
+                        bool cyclic = false;
+                        for (size_t index = nav.m_index; index != config::invalid_id; index = m_confighost.m_containers.at(index).id_parent_inherited)
+                        {
+                            if (index == replaced.id) { cyclic = true; break; }
+                        }
+                        if (!cyclic)
+                        {
+                            replaced.id_parent_inherited = nav.m_index;
+                        }
                     }
 
                     // Return found container as confignav
